@@ -228,39 +228,42 @@ func fail(i int, key, what string) {
 	tainted = true // one report per history
 }
 
-// judgeStructure: every chain is finite, cycle-free, in range, every node hashes to its bucket, no slot on two
+// structureDefect: every chain is finite, cycle-free, in range, every node hashes to its bucket, no slot on two
 // chains, every slot with a non-empty id (not detached by a bare remove) is on the chain its hash selects.
-func judgeStructure(i int) bool {
+func structureDefect() (key, what string) {
 	s := cache.Shm.Shm
 	where := make([]int, MAX) // bucket+1 of the chain a slot was seen on
 	for h := 0; h < NB; h++ {
 		v := int32(s.HashHead[h])
 		for v != -1 {
 			if v < 0 || int(v) >= MAX {
-				fail(i, "chain:bad-pointer", fmt.Sprintf("bucket %d reaches pointer %d outside [0,%d)", h, v, MAX))
-				return false
+				return "chain:bad-pointer", fmt.Sprintf("bucket %d reaches pointer %d outside [0,%d)", h, v, MAX)
 			}
 			if where[v] == h+1 {
-				fail(i, "chain:cycle", fmt.Sprintf("bucket %d: slot %d is reached twice (the walk never ends)", h, v))
-				return false
+				return "chain:cycle", fmt.Sprintf("bucket %d: slot %d is reached twice (the walk never ends)", h, v)
 			}
 			if where[v] != 0 {
-				fail(i, "chain:wrong-bucket", fmt.Sprintf("slot %d is on the chains of bucket %d and bucket %d", v, where[v]-1, h))
-				return false
+				return "chain:wrong-bucket", fmt.Sprintf("slot %d is on the chains of bucket %d and bucket %d", v, where[v]-1, h)
 			}
 			where[v] = h + 1
 			if rh := refHash(&s.Userid[v]); rh != h {
-				fail(i, "chain:wrong-bucket", fmt.Sprintf("slot %d (id %q, hash %d) is on the chain of bucket %d", v, cstrOf(&s.Userid[v]), rh, h))
-				return false
+				return "chain:wrong-bucket", fmt.Sprintf("slot %d (id %q, hash %d) is on the chain of bucket %d", v, cstrOf(&s.Userid[v]), rh, h)
 			}
 			v = int32(s.NextInHash[v])
 		}
 	}
 	for k := 0; k < MAX; k++ {
 		if !isEmptyID(&s.Userid[k]) && !detached[k] && where[k] == 0 {
-			fail(i, "chain:missing-slot", fmt.Sprintf("slot %d holds id %q but is on no chain (bucket %d)", k, cstrOf(&s.Userid[k]), refHash(&s.Userid[k])))
-			return false
+			return "chain:missing-slot", fmt.Sprintf("slot %d holds id %q but is on no chain (bucket %d)", k, cstrOf(&s.Userid[k]), refHash(&s.Userid[k]))
 		}
+	}
+	return "", ""
+}
+
+func judgeStructure(i int) bool {
+	if key, what := structureDefect(); key != "" {
+		fail(i, key, what)
+		return false
 	}
 	return true
 }
@@ -850,6 +853,14 @@ func main() {
 	}
 	run = hx.Start("C04")
 	defer run.Finish()
+	// hx.NewRand(seed) and hx.NewRand(seed+1) produce the same stream shifted by one draw; scramble the seed so that
+	// VERIF_SEED=1,2,3 give unrelated histories (still a pure function of the seed).
+	{
+		z := run.Seed + 0x9E3779B97F4A7C15
+		z = (z ^ (z >> 30)) * 0xBF58476D1CE4E5B9
+		z = (z ^ (z >> 27)) * 0x94D049BB133111EB
+		run.R = hx.NewRand(z ^ (z >> 31))
+	}
 	var err error
 	env, err = bbsenv.New(bbsenv.Options{})
 	if err != nil {
